@@ -453,10 +453,11 @@ def run_case(case, ctx):
         got, exc = None, e
     if exc is not None:
         cls = dfh.classify_exc(exc)
-        ctx.case(case, nontrivial=nontrivial, outcome=(name, cls, type(exc).__name__))
-        if cls in ("rejected", "out_of_scope"):
+        if cls in ("rejected", "out_of_scope"):  # evaluated, but nothing was compared: never counted as non-trivial
+            ctx.case(case, nontrivial=False, outcome=(name, cls, type(exc).__name__))
             ctx.count(cls)
             return
+        ctx.case(case, nontrivial=nontrivial, outcome=(name, cls, type(exc).__name__))
         sub = known_class(case, "dask-raises")
         ctx.violation(f"{name}:dask-raises:{type(exc).__name__}" + (f":{sub}" if sub else ""), case, f"dask raised {exc!r}; pandas gives\n{want!r}")
         return
